@@ -44,7 +44,7 @@ func (c03) Build(tier string, seed uint64) []any {
 	geos := []geo{{1, 1, 1, 2}, {2, 1, 1, 2}, {1, 2, 1, 2}, {3, 1, 1, 2}, {1, 3, 1, 2}, {2, 2, 1, 2}, {3, 2, 1, 2}, {2, 3, 1, 2}, {1, 1, 3, 2}, {2, 1, 3, 2}, {1, 2, 3, 2},
 		{1, 1, 1, 3}, {2, 1, 1, 3}, {1, 2, 1, 3}, {2, 2, 1, 3}, {2, 1, 1, 4}, {1, 2, 1, 4}}
 	if th {
-		geos = append(geos, geo{3, 3, 1, 2}, geo{4, 2, 1, 2}, geo{2, 2, 3, 2}, geo{2, 2, 1, 4}, geo{3, 2, 1, 3}, geo{2, 3, 1, 3}, geo{4, 1, 1, 4}, geo{1, 1, 3, 4})
+		geos = append(geos, geo{3, 3, 1, 2}, geo{4, 2, 1, 2}, geo{3, 1, 3, 2}, geo{2, 2, 1, 4}, geo{3, 2, 1, 3}, geo{2, 3, 1, 3}, geo{4, 1, 1, 4}, geo{1, 1, 3, 4})
 	}
 	for _, g := range geos {
 		add(enumBatches("enum", g.w, g.h, g.c, g.p, 0, 4096))
